@@ -613,7 +613,7 @@ func authTable() []authRow {
 // ---------- C03b: the same rows under varied arguments, without the required witnesses ----------
 
 // AuthArgGrid re-runs every mutating row that needs a witness with one argument at a time replaced
-// by a boundary value (integers -1, 0, 1, 2^40; byte strings empty and one byte short; strings
+// by a boundary value (Null for any type; integers -1, 0, 1, 2^40; byte strings empty and one byte short; strings
 // empty; booleans flipped; arrays emptied), signed by a stranger or by one member short of the
 // Alphabet threshold: whatever the arguments are, such a call must be inert.
 type AuthArgGrid struct {
@@ -642,7 +642,7 @@ func (d *AuthArgGrid) Cases(string) []GridCase {
 			continue
 		}
 		for a := 0; a < 8; a++ {
-			for v := 0; v < 4; v++ {
+			for v := 0; v < 5; v++ {
 				for _, s := range []string{"S", "M-minority"} {
 					out = append(out, GridCase{Name: fmt.Sprintf("%s.%s#%d arg%d:=alt%d by %s", r.Contract, r.Method, i, a, v, s), Data: authArgCase{i, a, v, s}})
 				}
@@ -685,6 +685,13 @@ func needsNoWitness(r authRow) bool {
 
 // altValue returns the v-th boundary value for an argument of a's type (ok=false: none).
 func altValue(a any, v int) (any, bool) {
+	if v == 4 {
+		// Null in place of anything (a type no caller's tooling would send, but any script can)
+		if a == nil {
+			return nil, false
+		}
+		return nil, true
+	}
 	switch t := a.(type) {
 	case int64:
 		return []int64{-1, 0, 1, 1 << 40}[v], true
